@@ -116,7 +116,8 @@ def session(bindir, steps, tag, size=(24, 80), touch=False, filter_time=120, qui
         modes = apps.modes_at_end(rd.out)
         out = bytes(rd.out)
         ev = [{"ev": "session_start", "tag": tag, "rx": {"lat": round(RXF[0] * 1e6), "lon": round(RXF[1] * 1e6)},
-               "scale9": round((scale if scale is not None else 0.12) * 1e9), "retry": 0, "quit_sent": quit_sent, "filter_time": filter_time}]
+               "scale9": round((scale if scale is not None else 0.12) * 1e9), "retry": 0, "quit_sent": quit_sent,
+               "filter_time": min(filter_time, 2000000000)}]      # (the trace checker's integers are 32 bits wide)
         ev += [e for e in rd.events() if e.get("ev") != "unparsable"]
         ev.append({"ev": "session_end", "tag": tag, "quit_sent": quit_sent, "alive": alive, "exit": status if status is not None else -1,
                    "panic": 1 if b"panicked" in out else 0, "termios_before": tb, "termios_after": ta,
@@ -385,7 +386,9 @@ def random_session(rng, i):
         # take another path through the client)
         import feed_checks
         steps.insert(rng.randrange(len(steps) + 1), ("junk", b"".join(feed_checks.MALFORMED)))
-    return dict(steps=steps, tag=f"random{i}", size=size, touch=rng.random() < 0.4, filter_time=rng.choice((120, 120, 1, 0)),
+    # (expiry thresholds: the default, one second, none at all - and the values somebody passes for "never expire")
+    return dict(steps=steps, tag=f"random{i}", size=size, touch=rng.random() < 0.4,
+                filter_time=rng.choice((120, 120, 1, 0, 120, 1, 0, 18446744073709551615, 9223372036854775807, 9223372036854775808, 4294967296)),
                 quit_at_end=rng.random() < 0.8, options=options)
 
 
